@@ -166,6 +166,11 @@ func execC16(c *child.Ctx, k loggerCase, cj []byte) {
 				res.AcceptedAMinuteBeforeTheEnd, len(res.Stdout), len(in), k.SilenceMs, k.SilenceAfterChunks, k.StdinNonblock, clipText(res.Stderr)), cj)
 			return
 		}
+		if res.InputEndedAMinuteBeforeTheEnd {
+			c.Violate("did-not-end", fmt.Sprintf("rtcmlogger was still running (not blocked) more than a minute after it had been given the whole of its input (%d bytes, stdin %s) and the end of it; it had passed %d bytes through\n%s",
+				len(in), k.Stdin, len(res.Stdout), clipText(res.Stderr)), cj)
+			return
+		}
 		c.Inconclusive("rtcmlogger did not exit within 90 s")
 		return
 	case res.ExitCode != 0:
